@@ -11,8 +11,8 @@ E3 = "E3 cooperative scheduler + preemption-bounded DFS (harness/vsched, harness
 # id -> (level, engine, technique, text, note, design_ref)
 CHECKS = {
     "C17": ("model_checking", E1 + " + " + E3,
-            "explicit-state enumeration (state x continuation) of snapshot/continue/restore histories on the real DbImpl + exhaustive 24-cell timeline table + preemption-bounded schedule exploration (with global-state-key pruning) of restore || reader || writer || Snapshot()/RootBucket user",
-            "Sequential: for every reachable state A of the index scenario (depth 1 quick / 2 thorough) and every continuation transaction: Snapshot, continuation, RestoreSnapshot; the full image equals A apart from the two markers, GetSnapshotId equals the returned id, each restore listener ran once, the first GetTimelineId issues a fresh id exactly once, the restored database answers reads and accepts every operation exactly like A (reference model), StreamToWriter yields an identical copy, and after every top-level call the reload lock is free again (a leaked lock is reported instead of blocking the restore); a subset of cases continues with a second snapshot and two more restores on the same handle (older snapshot, then newer one), each with fresh id, listeners and timeline bookkeeping. Timeline bookkeeping: all 3 modes x marker x stored id x id-function outcome. Schedules: ALL interleavings with <= 2 (thorough: 3) preemptions at reloadLock operations, tracked spawns and in-transaction yield points; every transaction sees the old or the new database in full, the final image is restored or restored+writer, no deadlock, no panic.",
+            "explicit-state enumeration (state x continuation) of snapshot/continue/restore histories on the real DbImpl + exhaustive 24-cell timeline table + preemption-bounded schedule exploration (with global-state-key pruning) of restore || reader || writer || Snapshot() / RootBucket user / SnapshotInTx user / second restore",
+            "Sequential: for every reachable state A of the index scenario (depth 1 quick / 2 thorough) and every continuation transaction: Snapshot, continuation, RestoreSnapshot; the full image equals A apart from the two markers, GetSnapshotId equals the returned id, each restore listener ran once, the first GetTimelineId issues a fresh id exactly once, the restored database answers reads and accepts every operation exactly like A (reference model), StreamToWriter yields an identical copy, and after every top-level call the reload lock is free again (a leaked lock is reported instead of blocking the restore); a subset of cases continues with a second snapshot and two more restores on the same handle (older snapshot, then newer one), each with fresh id, listeners and timeline bookkeeping. Timeline bookkeeping: all 3 modes x marker x stored id x id-function outcome. Schedules: restore || reader || writer with <= 2 (thorough: 3) preemptions, and four further variants with one preemption less (+ Snapshot(), + View{RootBucket}, + View{SnapshotInTx} whose snapshot must hold exactly what that transaction saw when it began, and two overlapping restores); every transaction sees the old or the new database in full, the final image is a restored one (+writer), no deadlock, no panic, listeners once per restore.",
             "Scheduling points: DbImpl.reloadLock, bbolt's rwlock/metalock/mmaplock (shimmed through the overlay), tracked spawns, harness yields; between them bbolt calls are atomic. vsync.RWMutex reproduces Go's writer preference; one restore (two in one variant), one reader, one writer per schedule; a thread that blocks in code the scheduler does not control is detached (no hang) and the execution is flagged; every 25th schedule is replayed from its choice sequence and must reproduce itself.",
             "DESIGN.md §4 C17"),
     "C18": ("model_checking", E3,
@@ -155,7 +155,7 @@ def main():
         ],
         "checks": checks,
         "not_applicable": na,
-        "notes": "Every check rebuilds the harness against /repo's working tree (run.sh). Known findings: known_findings.json.",
+        "notes": "Every check rebuilds the harness against /repo's working tree (run.sh). Known findings and repaired defects: known_findings.json (the known list is empty; 27 fix: commits). Seeded changes: seeded/ (132, all detected at the quick tier); behaviour-preserving refactorings: refactors/ (8, no alarm); self-test: tools/selftest.py -> selftest/results.json.",
     }
     with open(os.path.join(ROOT, "MANIFEST.json"), "w") as f:
         json.dump(m, f, indent=1)
